@@ -44,7 +44,7 @@ CLAIMS = {
         "design_ref": "DESIGN.md section 4 C05",
     },
     "C06": {
-        "text": "Partial (relational property decided through per-build contracts). Discharged for all inputs: try_reuse returns a donor iff picosvg reports a match whose affine fits Fixed and never when reuse is disabled; add_glyph registers under the normal form; _update_paint_glyph emits either a fresh glyph or the donor under (approximately) the reuse affine with solid fills kept, linear and radial gradients counter-transformed by exactly 'wrapper then inverse reuse affine' (cancellation lemma), un-reused iff that counter-transform does not fit Fixed. Bounded, through the real command line (part-file steps included): a positive tolerance and the documented -1 both build and both fonts paint the sources. Known finding F9 (tolerance 0) is excluded by its witness class.",
+        "text": "Partial (relational property decided through per-build contracts). Discharged for all inputs: try_reuse returns a donor iff picosvg reports a match whose affine fits Fixed and never when reuse is disabled (any negative tolerance, as documented); add_glyph registers under the normal form; _update_paint_glyph emits either a fresh glyph or the donor under (approximately) the reuse affine with solid fills kept, linear and radial gradients counter-transformed by exactly 'wrapper then inverse reuse affine' (cancellation lemma), un-reused iff that counter-transform does not fit Fixed. Bounded, through the real command line (part-file steps included): a positive tolerance and a negative one (-1, -0.5, -2) both build and both fonts paint the sources. Known finding F9 (tolerance 0) is excluded by its witness class.",
         "note": "picosvg normalize/affine_between are uninterpreted functions with assumed contracts (functional; an affine that maps donor to target within tolerance, invertible); SVGPath.apply_transform uninterpreted; _create_glyph assumed; non-singularity of the combined gradient transform assumed at the _decompose_uniform_transform call; OT-SVG reuse (<use>) is bounded-tier only; A-real.",
         "design_ref": "DESIGN.md section 4 C06",
     },
@@ -62,7 +62,7 @@ CLAIMS = {
     },
     "C12": {
         "text": "Bounded only: the real maximum_color pipeline (ninja, offline) is run on generated COLRv1 / COLRv0 / OT-SVG fonts; the written font must keep the character map and advances, keep the original colour table and add the complementary one (and CBDT/CBLC with --bitmaps, one bitmap per colour glyph), keep or strip glyph names as requested, and for every colour glyph the COLR and SVG tables must paint the same picture as the input for the glyph reached from the same codepoint (sampling with the COLR and SVG evaluators of contracts/e2e.py).",
-        "note": "8 stratified pipeline runs quick / 80 thorough (COLRv1/COLRv0/OT-SVG inputs, kern+mark features compared by codepoint, metrics variety incl. hhea / win metrics unlike the typo metrics, shared shapes, translucent foreground colour, --bitmaps, other hash seeds) plus glue_together._copy_cbdt on fonts with interrupted glyph-id runs; glue_together's bookkeeping loops are not under a deductive contract.",
+        "note": "8 stratified pipeline runs quick / 80 thorough (COLRv1/COLRv0/OT-SVG inputs, kern+mark features compared by codepoint, metrics variety incl. hhea / win metrics unlike the typo metrics, options given to maximum_color itself (--clipbox_quantization, --bitmap_resolution: they must reach the added tables), shared shapes, translucent foreground colour, --bitmaps, other hash seeds) plus glue_together._copy_cbdt on fonts with interrupted glyph-id runs; glue_together's bookkeeping loops are not under a deductive contract.",
         "design_ref": "DESIGN.md B.1, section 4 C12",
         "category": "other",
         "technique": "bounded native stand-in (real maximum_color pipeline on generated fonts, picture comparison by sampling); no deductive claim",
@@ -73,7 +73,7 @@ CLAIMS = {
         "design_ref": "DESIGN.md section 4 C10",
     },
     "C11": {
-        "text": "_sort_by_gid keeps (glyph, parallel entry) pairs together and orders by glyph id (exhaustive symbolic execution for coverages of up to 3 glyphs: finite scope, labelled bounded). Exhaustive finite enumerations: every coverage-indexed array and glyph-ordered list the OpenType GSUB/GPOS/GDEF chapters define is in nanoemoji's rule table, every rule's attribute path exists in fontTools otData, every Coverage field of otData has a rule. Bounded: a font with single/pair/cursive/mark-base/mark-lig/mark-mark/contextual/reverse-chaining lookups and GDEF lists is permuted randomly, saved and reloaded; cmap, metrics, outlines and every lookup's name-level meaning are unchanged and every coverage table is sorted.",
+        "text": "_sort_by_gid keeps (glyph, parallel entry) pairs together and orders by glyph id (exhaustive symbolic execution for coverages of up to 3 glyphs: finite scope, labelled bounded). Exhaustive finite enumerations: every coverage-indexed array and glyph-ordered list the OpenType GSUB/GPOS/GDEF chapters define is in nanoemoji's rule table, every rule's attribute path exists in fontTools otData, every Coverage field of otData has a rule. Bounded: a font (TrueType outlines, every third case CFF outlines) with single/pair/cursive/mark-base/mark-lig/mark-mark/contextual/reverse-chaining lookups and GDEF lists is permuted randomly, saved and reloaded; cmap, metrics, outlines and every lookup's name-level meaning are unchanged and every coverage table is sorted.",
         "note": "fontTools iterSubTables reaches every subtable; lookups fontTools models as name-keyed dicts are re-sorted by fontTools; MATH is outside the property.",
         "design_ref": "DESIGN.md section 4 C11",
         "category": "other",
